@@ -180,7 +180,14 @@ func (rp *Republisher) republishEntry(ctx context.Context, priv ic.PrivKey) erro
 	if prevEol.After(eol) {
 		eol = prevEol
 	}
-	err = rp.ns.Publish(ctx, priv, p, namesys.PublishWithEOL(eol))
+	opts := []namesys.PublishOption{namesys.PublishWithEOL(eol)}
+	// Republishing keeps the sequence number, so the new record replaces the
+	// previous one everywhere: it must keep the TTL the record was published
+	// with instead of falling back to the default TTL.
+	if ttl, err := rec.TTL(); err == nil {
+		opts = append(opts, namesys.PublishWithTTL(ttl))
+	}
+	err = rp.ns.Publish(ctx, priv, p, opts...)
 	span.RecordError(err)
 	return err
 }
